@@ -1,13 +1,13 @@
 # checks added after the exec family; merged by gen_manifest.py
 EXTRA_CLAIMED = {
+ "C12": ("httpio", "§3 C12", "Transport-facing surfaces only: seeded search over hostile and mutated bodies and WebSocket message sequences delivered through simulated readers/inboxes with chunking, truncation and I/O errors, followed by execution of whatever was decoded; oracle = no panic (attributed by source location), no stall, error answers. Grammar-level fuzzing of the parser (e.g. the 200k-bracket overflow) is not this family and is not attempted."),
+ "C23": ("httpio", "§3 C23", "Seeded search over generated requests in four encodings through a simulated reader (chunk schedules, Pending gaps, truncation, I/O errors) and over batch executions under drawn completion orders; the cross-encoding equality is an input-level comparison riding on the simulated transport."),
+ "C24": ("httpio", "§3 C24", "Seeded search over generated multipart upload requests and limit options through the simulated reader (with and without faults) against a reference model of the multipart request spec; bindings observed by executing the decoded requests."),
  "C26": ("mpsub", "§3 C26", "Seeded search over interleavings of response arrivals, heartbeat expiries (incl. late), end-of-stream, consumer back-pressure and the select! coin on the real create_multipart_mixed_stream; oracle = independent strict RFC 2046 parser + exactly-once/in-order comparison."),
  "C28": ("dataloader", "§3 C28", "Seeded search over interleavings of 1-5 client tasks, spawned batch tasks, timer firings (incl. late) and loader completions on the real DataLoader, with failing/omitting loaders and cancelled waiters; oracle = history checker over invoke/return events stamped with a global sequence number."),
  "C25": ("ws", "§3 C25", "Seeded search over client scripts interleaved with subscription events, source ends, callback completions, keep-alive expiries and consumer lag on the real WebSocket state machine (both protocols, both constructors); oracle = protocol monitor over consumption points and outputs."),
  "C29": ("dataloader", "§3 C29", "Seeded search over sequential operation histories (<=40 ops) compared operation by operation with an executable reference cache (none / map / exact LRU with enable flags)."),
 }
 EXTRA_NA = {
- "C12": "check not built yet (planned: transport-facing surfaces, DESIGN §3 C12)",
- "C23": "check not built yet (planned, DESIGN §3 C23)",
- "C24": "check not built yet (planned, DESIGN §3 C24)",
  "C31": "check not built yet (planned, DESIGN §3 C31)",
 }
